@@ -389,3 +389,151 @@ func C02Fingerprint(s *Session, st *StepObs) (string, bool) {
 }
 
 var _ = chaingen.AllRules
+
+// CheckC19 compares the events emitted during one step with how the
+// committed chain changed, and probes NotificationsSinceHeight.
+func CheckC19(s *Session, st *StepObs, probe bool) []Finding {
+	var out []Finding
+	pre, post := st.Pre, st.Post
+	kc := kindClass(st.Kind)
+	f := commonPrefix(pre, post) - 1
+
+	// Expected disconnects: every removed block header, highest first.
+	type disc struct {
+		h   uint32
+		hdr wire.BlockHeader
+		tip wire.BlockHeader
+	}
+	var wantD []disc
+	for h := len(pre) - 1; h > f; h-- {
+		wantD = append(wantD, disc{uint32(h), pre[h], pre[h-1]})
+	}
+	var gotD []EventObs
+	var gotC []EventObs
+	for _, e := range st.Events {
+		if e.Connected {
+			gotC = append(gotC, e)
+		} else {
+			gotD = append(gotD, e)
+		}
+	}
+	if len(gotD) != len(wantD) {
+		out = append(out, Finding{"c19/disconnect-count/" + kc, fmt.Sprintf("%d block headers were removed (heights %d..%d) but %d disconnected events were emitted", len(wantD), f+1, len(pre)-1, len(gotD))})
+	} else {
+		for i := range wantD {
+			g, w := gotD[i], wantD[i]
+			switch {
+			case g.Height != w.h || g.Header != w.hdr:
+				out = append(out, Finding{"c19/disconnect-wrong-block/" + kc, fmt.Sprintf("disconnected event %d names height %d, want height %d (highest first)", i, g.Height, w.h)})
+			case g.NewTip != w.tip:
+				out = append(out, Finding{"c19/disconnect-wrong-newtip/" + kc, fmt.Sprintf("disconnected event for height %d carries a new-tip header that is not the header at height %d", g.Height, g.Height-1)})
+			case g.StillStored:
+				out = append(out, Finding{"c19/disconnect-before-store/" + kc, fmt.Sprintf("disconnected event for height %d received while the block store still held that header", g.Height)})
+			}
+		}
+	}
+
+	// Replay model: a subscriber holding the committed chain up to the filter
+	// tip applies the events in order.
+	m := append([]wire.BlockHeader(nil), pre[:min(len(st.PreF), len(pre))]...)
+	for i, e := range st.Events {
+		if e.Connected {
+			switch {
+			case int(e.Height) == len(m):
+				m = append(m, e.Header)
+			case int(e.Height) < len(m) && m[e.Height] == e.Header:
+				// already held: skipped
+			default:
+				out = append(out, Finding{"c19/connect-out-of-order/" + kc, fmt.Sprintf("event %d: connected height %d while the subscriber holds %d headers", i, e.Height, len(m))})
+			}
+			if !e.FilterHasIt && !laterDisconnected(st.Events[i+1:], e) {
+				out = append(out, Finding{"c19/connect-before-commit/" + kc, fmt.Sprintf("connected event for height %d received while the filter store tip was %d", e.Height, e.FilterTipAt)})
+			}
+			if !e.BlockAtMatch && !laterDisconnected(st.Events[i+1:], e) {
+				out = append(out, Finding{"c19/connect-wrong-header/" + kc, fmt.Sprintf("connected event for height %d does not carry the block header stored at that height", e.Height)})
+			}
+		} else {
+			if int(e.Height) == len(m)-1 && m[e.Height] == e.Header {
+				m = m[:len(m)-1]
+			} else if int(e.Height) < len(m) {
+				out = append(out, Finding{"c19/disconnect-not-tip/" + kc, fmt.Sprintf("event %d: disconnected height %d but the subscriber's tip is %d", i, e.Height, len(m)-1)})
+			}
+		}
+	}
+	want := post[:min(len(st.PostF), len(post))]
+	if !equalChains(m, want) {
+		out = append(out, Finding{"c19/replay-mismatch/" + kc, fmt.Sprintf("replaying the step's events leaves the subscriber with %d headers, the committed chain (filter tip) has %d", len(m), len(want))})
+	}
+	// Connected events are exactly the newly committed filter headers.
+	cf := 0
+	for cf < len(st.PreF) && cf < len(st.PostF) && st.PreF[cf] == st.PostF[cf] && cf < len(pre) && cf < len(post) && pre[cf] == post[cf] {
+		cf++
+	}
+	newly := len(st.PostF) - cf
+	if newly < 0 {
+		newly = 0
+	}
+	// (Only decidable as a plain count when the step contains no rollback;
+	// compound steps are decided by the replay model above.)
+	if len(gotD) == 0 && len(gotC) != newly {
+		out = append(out, Finding{"c19/connect-count/" + kc, fmt.Sprintf("%d filter headers were newly committed (heights %d..%d) but %d connected events were emitted", newly, cf, len(st.PostF)-1, len(gotC))})
+	}
+
+	if probe {
+		out = append(out, probeBacklog(s, st)...)
+	}
+	return dedup(out)
+}
+
+// probeBacklog checks NotificationsSinceHeight against the committed chain.
+func probeBacklog(s *Session, st *StepObs) []Finding {
+	var out []Finding
+	kc := kindClass(st.Kind)
+	ft := uint32(len(st.PostF) - 1)
+	hs := []uint32{0, ft, ft + 1, ft + 7}
+	if ft > 0 {
+		hs = append(hs, uint32(s.Rng.Intn(int(ft))), ft-1)
+	}
+	for _, h := range hs {
+		ntfns, best, err := s.BM.NotificationsSinceHeight(h)
+		switch {
+		case h == 0:
+			if err != nil || len(ntfns) != 0 {
+				out = append(out, Finding{"c19/backlog-zero/" + kc, fmt.Sprintf("height 0: err=%v n=%d", err, len(ntfns))})
+			}
+		case h > ft:
+			if err == nil {
+				out = append(out, Finding{"c19/backlog-above-tip/" + kc, fmt.Sprintf("height %d above the committed filter tip %d did not fail (n=%d best=%d)", h, ft, len(ntfns), best)})
+			}
+		default:
+			if err != nil {
+				out = append(out, Finding{"c19/backlog-error/" + kc, fmt.Sprintf("height %d (committed filter tip %d): %v", h, ft, err)})
+				continue
+			}
+			if len(ntfns) != int(ft-h) {
+				out = append(out, Finding{"c19/backlog-length/" + kc, fmt.Sprintf("backlog from %d has %d entries, committed blocks above it: %d (filter tip %d, reported best %d)", h, len(ntfns), ft-h, ft, best)})
+				continue
+			}
+			for i, n := range ntfns {
+				wh := h + 1 + uint32(i)
+				if n.Height() != wh || n.Header() != st.Post[wh] {
+					out = append(out, Finding{"c19/backlog-content/" + kc, fmt.Sprintf("backlog entry %d is height %d, want committed block %d", i, n.Height(), wh)})
+					break
+				}
+			}
+		}
+	}
+	return out
+}
+
+// laterDisconnected reports whether a later event of the step disconnects the
+// block of connected event e (a concurrent rollback may remove a filter
+// header between the event's receipt and the harness's read).
+func laterDisconnected(rest []EventObs, e EventObs) bool {
+	for _, r := range rest {
+		if !r.Connected && r.Height <= e.Height {
+			return true
+		}
+	}
+	return false
+}
